@@ -246,6 +246,7 @@ class Interp(object):
         self.call_depth = 0
         self.current_line = None
         self.sys_path = ['<sys.path[0]>']
+        self.memoise_cached = False
 
     # ---- path exploration ------------------------------------------------
     def reset_path(self, prefix):
@@ -475,7 +476,10 @@ class Interp(object):
             if m is not None:
                 fv = FuncVal(m.rel, m.node, None, v, m.cls)
                 if m.is_property:
-                    return self.call(fv, [], {})
+                    val = self.call(fv, [], {})
+                    if 'cached_property' in m.decorators and self.memoise_cached:
+                        v.attrs[attr] = val
+                    return val
                 return fv
             for c in v.cls.mro():
                 if attr in c.class_attrs:
